@@ -445,11 +445,11 @@ impl Property for C17 {
     type Plan = C17Plan;
     const ID: &'static str = "C17";
     const LEVEL: &'static str = "exploration";
-    const CROSS_PROCESS_RUNS: u64 = 4000;
+    const CROSS_PROCESS_RUNS: u64 = 3000;
     const RULE: &'static str = "seeded worlds of 2-4 caller threads owning 3-8 decoder instances (at least two replicas fed the same history, the others unrelated histories including corrupted inputs and source faults that make their decoder fail), executed under the simulator's baton scheduler: one thread runs at a time, pre-emption points are every source read and every call boundary, the successor comes from the plan's schedule. Oracles: replicas agree; every instance's history digest (every result and every state digest) equals the digest of the same history run alone and sequentially; the same runs executed in two further fresh processes give identical digests (per-process hash seeds, addresses, lazy statics first used from a non-main thread). evaluations = decode calls made under the scheduler. A case is non-trivial if the schedule actually switched threads while decode calls were in flight; distinct by (context-switch sequence hash, thread step lists).";
     fn runs(tier: Tier) -> u64 {
         match tier {
-            Tier::Quick => 30_000,
+            Tier::Quick => 24_000,
             Tier::Thorough => 800_000,
         }
     }
